@@ -127,8 +127,13 @@ def parse_macros(proj: Path) -> dict:
     return out
 
 
+CORE_CVODE = ["naunet_constants.cpp", "naunet_fex.cpp", "naunet_jac.cpp", "naunet_physics.cpp", "naunet_rates.cpp",
+              "naunet_utilities.cpp"]
+CORE_ODEINT = ["naunet_constants.cpp", "naunet_ode.cpp", "naunet_physics.cpp", "naunet_utilities.cpp"]
+
+
 def build_cvode(proj: Path, build: Path, method: str, cache: Path, seams=True, sanitize=True,
-                units=None, link=True, extra_flags=()) -> dict:
+                units=None, link=True, extra_flags=(), core_only=False) -> dict:
     """Compile the generated cvode project (dense|sparse) and link it with driver_cvode.
 
     Returns {"exe": Path|None, "warnings": {unit: text}, "fields": [...], "consts": [...], "idx": [...]}
@@ -139,7 +144,7 @@ def build_cvode(proj: Path, build: Path, method: str, cache: Path, seams=True, s
     fields, consts, idx = _write_defs(proj, build)
     incs = [SHIM, proj / "include", build]
     srcdir = proj / "src"
-    units = units or sorted(p.name for p in srcdir.glob("*.cpp"))
+    units = units or (CORE_CVODE if core_only else sorted(p.name for p in srcdir.glob("*.cpp")))
     objs, warns = [], {}
     for u in units:
         extra = list(extra_flags)
@@ -151,8 +156,8 @@ def build_cvode(proj: Path, build: Path, method: str, cache: Path, seams=True, s
     exe = None
     if link:
         dflags = list(extra_flags) + (["-DVERIF_SPARSE=1"] if method == "sparse" else [])
-        if not seams:
-            dflags.append("-DVERIF_NO_SEAMS=1")
+        if core_only:
+            dflags.append("-DVERIF_NO_NAUNET=1")
         dobj = build / "driver.o"
         warns["driver"] = compile_unit(HERE / "driver_cvode.cpp", dobj, incs, dflags, sanitize=sanitize)
         rt = runtime_object(cache, "shim_runtime.cpp", sanitize=sanitize)
@@ -164,21 +169,22 @@ def build_cvode(proj: Path, build: Path, method: str, cache: Path, seams=True, s
     return {"exe": exe, "warnings": warns, "fields": fields, "consts": consts, "idx": idx}
 
 
-def build_odeint(proj: Path, build: Path, cache: Path, sanitize=True, link=True, extra_flags=()) -> dict:
+def build_odeint(proj: Path, build: Path, cache: Path, sanitize=True, link=True, extra_flags=(), core_only=False) -> dict:
     proj, build = Path(proj), Path(build)
     build.mkdir(parents=True, exist_ok=True)
     fields, consts, idx = _write_defs(proj, build)
     incs = [SHIM, proj / "include", build]
     srcdir = proj / "src"
     objs, warns = [], {}
-    for u in sorted(p.name for p in srcdir.glob("*.cpp")):
+    for u in (CORE_ODEINT if core_only else sorted(p.name for p in srcdir.glob("*.cpp"))):
         obj = build / (u + ".o")
         warns[u] = compile_unit(srcdir / u, obj, incs, list(extra_flags), sanitize=sanitize)
         objs.append(obj)
     exe = None
     if link:
         dobj = build / "driver.o"
-        warns["driver"] = compile_unit(HERE / "driver_odeint.cpp", dobj, incs, list(extra_flags), sanitize=sanitize)
+        warns["driver"] = compile_unit(HERE / "driver_odeint.cpp", dobj, incs,
+                                       list(extra_flags) + (["-DVERIF_NO_NAUNET=1"] if core_only else []), sanitize=sanitize)
         rt = runtime_object(cache, "odeint_runtime.cpp", sanitize=sanitize)
         exe = build / "driver"
         cmd = [CXX, *(SAN_FLAGS if sanitize else []), "-o", str(exe), str(dobj), *map(str, objs), str(rt), "-lm"]
@@ -192,7 +198,7 @@ _LAUNCH = re.compile(r"(\b\w+)\s*<<<([^;]*?)>>>\s*\(")
 _LAUNCH_SUB = r"for (verif_launch_begin(\2); verif_launch_more(); verif_launch_next()) \1("
 
 
-def build_cusparse(proj: Path, build: Path, cache: Path, seams=True, sanitize=True, extra_flags=()) -> dict:
+def build_cusparse(proj: Path, build: Path, cache: Path, seams=True, sanitize=True, extra_flags=(), core_only=False) -> dict:
     """CPU emulation of the cusparse back-end: the .cu kernel text is compiled as C++."""
     proj, build = Path(proj), Path(build)
     build.mkdir(parents=True, exist_ok=True)
@@ -202,6 +208,8 @@ def build_cusparse(proj: Path, build: Path, cache: Path, seams=True, sanitize=Tr
     objs, warns = [], {}
     rewrites = 0
     for cu in sorted(srcdir.glob("*.cu")):
+        if core_only and cu.stem == "naunet_renorm":
+            continue
         txt = cu.read_text()
         txt2, n = _LAUNCH.subn(_LAUNCH_SUB, txt)   # the launch statement only
         rewrites += n
